@@ -115,6 +115,7 @@ def run(PID, mode, a, seed, t0):
             r2 = pool.map_async(token_roundtrip_worker, tjobs, chunksize=1)
             results = r1.get(); tres = r2.get()
         errs = [r for r in results if r['error']] + [r for r in tres if r['error']]
+        stopped = [r for r in results if r.get('stopped_early')]
         for e in errs[:3]:
             obs.append(Obligation('engine', 'inconclusive', f"{e.get('cfg', e.get('L'))}: {e['error']}"))
         bad = [b for r in results for b in r['bad']] + [dict(b, cfg=dict(token_length=r['L'])) for r in tres for b in r['bad']]
@@ -143,7 +144,9 @@ def run(PID, mode, a, seed, t0):
             obs.append(Obligation(f'{ob}[{key}]', 'violated', f"{len(lst)} paths, e.g. {b.get('detail') or b.get('text')} ({b['cfg']}); native: {cex.get('native') or 'not reproduced'}", cex=cex, key=key))
         names = (['roundtrip', 'format-no-panic', 'parse-back-no-panic', 'token-roundtrip'] if 'c06' in mode else []) + \
                 (['order', 'complete<=>rank-pair-token', 'token-kind', 'maximal-runs', 'history-independence'] if 'c17' in mode else [])
-        if not errs:
+        if stopped and not any(o.status == 'violated' for o in obs):
+            obs.append(Obligation('exploration', 'inconclusive', f'{len(stopped)} workers stopped early on a counterexample that was then not confirmed natively'))
+        if not errs and not stopped:
             for nme in names:
                 if not any(k[0] == nme and k[1] != 'weight=neg-zero' for k in bykey):
                     obs.append(Obligation(nme, 'holds', f'on all {sum(r["fmt_paths"] for r in results)} format paths / {sum(r["parse_paths"] for r in results)} parse-back paths of {len(cfgs)} window configurations'
